@@ -616,6 +616,11 @@ class Walker:
                 inner.env[n] = ('var', n)
             return ('comp', type(node).__name__, self.sym(node.elt, inner), ','.join(names), self.sym(g.iter, st),
                     tuple(self.sym(c, inner) for c in g.ifs))
+        if isinstance(node, ast.NamedExpr) and isinstance(node.target, ast.Name):
+            # (name := value): the value, with the name bound for what is evaluated after it
+            v = self.sym(node.value, st)
+            st.env[node.target.id] = v
+            return v
         if isinstance(node, ast.IfExp):
             t = self.sym(node.test, st)
             d = self.decide(t, st)
